@@ -63,10 +63,12 @@ def ref_point(p, rot, tr, s):
 
 def wire_args(objs, fmt=repr):
     out = []
-    for o in objs:
+    for k_, o in enumerate(objs):
         if o[0] != 'w':
             raise symx.HarnessError('C05: wires only')
         out += ['-w', ','.join([str(o[1])] + [fmt(float(c)) for c in o[2]] + [fmt(float(c)) for c in o[3]] + [fmt(float(o[4]))])]
+        if len(o) > 5 and o[5]:
+            out += ['--taper-wire=%d,%d' % (k_ + 1, o[5])]          # tapered segmentation (bounds depend on the radius)
     return out
 
 
@@ -94,7 +96,7 @@ def three_models(main, gname, move, tag=None):
     objs2 = []
     for k, o in enumerate(objs):
         if tag is None or tag == k + 1:
-            objs2.append(o[:2] + (tuple(ref_point(o[2], rot, tr, s)), tuple(ref_point(o[3], rot, tr, s)), o[4] * s))
+            objs2.append(o[:2] + (tuple(ref_point(o[2], rot, tr, s)), tuple(ref_point(o[3], rot, tr, s)), o[4] * s) + tuple(o[5:]))
         else:
             objs2.append(o)
     m_co = run_main(main, ['-f', repr(F0 / s)] + wire_args(objs2) + tail)
@@ -421,7 +423,7 @@ def main(args):
     ck.shadow_stats = symx.load().stats
     if ck.tier == 'quick':
         parts = [('fill_invariance', ('G2', 'far-generic')), ('fill_invariance', ('G5', 'right-angles')), ('fill_invariance', ('G4', 'x-then-y')),
-                 ('fill_invariance', ('G9', 'z-far')), ('fill_invariance', ('G8', 'z-right')), ('fill_invariance', ('G2', 'z-only', 2)),
+                 ('fill_invariance', ('G9', 'z-far')), ('fill_invariance', ('G8', 'z-right')), ('fill_invariance', ('G11', 'far-generic')), ('fill_invariance', ('G21', 'right-angles')), ('fill_invariance', ('G2', 'z-only', 2)),
                  ('far_field', ('G2', 'z-only')), ('far_field', ('G9', 'z-far')), ('mixed_tag', ('G2',)), ('mixed_tag', ('G5',))]
         parts += [('topology', (f, k)) for f in ('near-miss', 'fuzzy-join', 'just-apart', 'grounded') for k in ('scale',)]
         parts += [('topology', ('fuzzy-join', 'translate')), ('topology', ('grounded', 'translate')), ('topology', ('just-apart', 'rotate'))]
